@@ -676,17 +676,22 @@ class ExpressionValue(Value):
         return self.left.int if self.left.is_address() else self.right.int
 
     def calculate_address_offset(self, statements):
-        address_index = self.left.int if self.left.is_address() else self.right.int
-        additional_value = self.left.int if self.left.is_numeric() else self.right.int
-        address = statements[address_index].code_pkg.address.int
+        def term(value):
+            if value.is_address():
+                return statements[value.int].code_pkg.address.int
+            return -value.int if value.is_negative() else value.int
+
+        left = term(self.left)
+        right = term(self.right)
         if self.operation == "+":
-            return NumericValue(address + additional_value, size_hint=4, mode=ExplicitAddressingMode.EXTENDED)
+            result = left + right
         elif self.operation == "-":
-            return NumericValue(address - additional_value, size_hint=4, mode=ExplicitAddressingMode.EXTENDED)
+            result = left - right
         elif self.operation == "*":
-            return NumericValue(address * additional_value, size_hint=4, mode=ExplicitAddressingMode.EXTENDED)
+            result = left * right
         else:
-            return NumericValue(int(address / additional_value), size_hint=4, mode=ExplicitAddressingMode.EXTENDED)
+            result = int(left / right)
+        return NumericValue(result, size_hint=4, mode=ExplicitAddressingMode.EXTENDED)
 
     def is_8_bit(self):
         return False
